@@ -313,23 +313,7 @@ fn negatives<F: Fam>(reg: &Registry, rep: &mut Report, schema: &TypeSchema, view
         }
     }
     // a missing mandatory field: missing-value error
-    let (fields, vals, encoding) = match (&schema.kind, view) {
-        (Kind::Struct { fields, encoding, transparent: false }, View::Struct(v)) => (fields, v, *encoding),
-        (Kind::Enum { variants, index_only: false }, View::Enum(k, v)) if !variants[*k].unit => (&variants[*k].fields, v, variants[*k].encoding),
-        _ => (&Vec::new() as &Vec<crate::FieldSchema>, &Vec::new() as &Vec<View>, crate::Encoding::Map),
-    };
-    let mandatory = |f: &crate::FieldSchema| !f.skip && !matches!(f.ty, Ty::Opt(_) | Ty::NilU32);
-    let victim: Option<u32> = match encoding {
-        crate::Encoding::Map => fields.iter().filter(|f| mandatory(f)).map(|f| f.index).next(),
-        crate::Encoding::Array => {
-            // only the highest present index can be "missing" in an array
-            let top = fields.iter().zip(vals.iter()).filter(|(f, v)| !f.skip && !refschema::is_nil(&f.ty, v)).max_by_key(|(f, _)| f.index);
-            match top {
-                Some((f, _)) if mandatory(f) => Some(f.index),
-                _ => None,
-            }
-        }
-    };
+    let victim: Option<u32> = refschema::victim(schema, view);
     if let Some(idx) = victim {
         rep.eval();
         let bad = refschema::strip(&refschema::encode_type(reg, schema, view, &EncOpts { omit_top_index: Some(idx), ..Default::default() }));
@@ -339,6 +323,20 @@ fn negatives<F: Fam>(reg: &Registry, rep: &mut Report, schema: &TypeSchema, view
             Ok(Err(ErrClass::MissingValue)) => rep.count("C09/negative: missing mandatory field -> missing value"),
             Ok(Ok(v)) => viol(rep, "C09", ty, "missing-field-accepted", format!("an encoding without mandatory field {} ({}) decoded to {}", idx, diag(&bad), v), &b, rp),
             Ok(Err(e)) => viol(rep, "C09", ty, "missing-field-error-class", format!("an encoding without mandatory field {} failed with {:?} instead of missing value", idx, e), &b, rp),
+        }
+    }
+    // a mandatory field missing from a nested value (behind Option, collections, variants, other
+    // structs): the whole decode fails, no enclosing optional field turns it into its nil value
+    for k in 0..3 {
+        let Some(bad) = refschema::encode_omit_nested(reg, schema, view, k) else { break };
+        let bad = refschema::strip(&bad);
+        rep.eval();
+        let b: Box<[u8]> = bad.encode().into_boxed_slice();
+        match mon::guarded(|| decode_err::<F>(&b)) {
+            Err(p) => viol(rep, "C09", ty, "decode-panic", p.message, &b, rp),
+            Ok(Err(ErrClass::MissingValue)) => rep.count("C09/negative: mandatory field missing from a nested value -> missing value"),
+            Ok(Ok(v)) => viol(rep, "C09", ty, "nested-missing-field-accepted", format!("an encoding whose nested value #{} lacks a mandatory field ({}) decoded to {}", k, diag(&bad), v), &b, rp),
+            Ok(Err(e)) => viol(rep, "C09", ty, "nested-missing-field-error-class", format!("an encoding whose nested value #{} lacks a mandatory field ({}) failed with {:?} instead of missing value", k, diag(&bad), e), &b, rp),
         }
     }
     // an unknown variant at top level: unknown-variant error
